@@ -735,6 +735,8 @@ func main() {
 		os.Exit(1)
 	}
 	f := &facts{Paths: map[string][]string{}, Consts: map[string]string{}, Callers: map[string][]string{}}
+	// a fixed package order, so that the generated file is byte-identical from run to run on the same source
+	sort.Slice(pkgs, func(i, j int) bool { return pkgs[i].PkgPath < pkgs[j].PkgPath })
 	for _, p := range pkgs {
 		if len(p.Errors) > 0 {
 			fmt.Fprintln(os.Stderr, "type errors in", p.PkgPath, p.Errors)
